@@ -217,6 +217,8 @@ struct Out {
     max_depth: u64,
     shortened_files: u64,
     savepoints: u64,
+    /// files with a persistent savepoint taken on the empty database
+    counts_extra: u64,
     trace: Option<Vec<String>>,
 }
 
@@ -240,6 +242,21 @@ fn new_to_old(seed: u64, case: u64, trace_on: bool, out: &mut Out) -> Result<(),
     }
     w.be.set_sync_hook(crate::fmt::sync_hook(false));
     w.be.start_recording();
+    // sometimes a persistent savepoint is taken while the database is still empty (no user root):
+    // its record in the savepoint table has the shortest form the format allows
+    if w.rng.chance(1, 3) {
+        let mut p = w.plan();
+        p.durable = true;
+        p.end = End::Commit;
+        p.n_ops = 0;
+        p.pre_ops = 0;
+        p.esp_create = false;
+        p.psp_create = true;
+        p.psp_delete = None;
+        p.restore = None;
+        w.run_txn(&p).map_err(|e| e.text().to_string())?;
+        out.counts_extra += 1;
+    }
     // a bulk of long-prefix keys so that branch pages hold shortened separators over several levels
     {
         let txn = w.db().begin_write().map_err(|e| e.to_string())?;
@@ -262,7 +279,7 @@ fn new_to_old(seed: u64, case: u64, trace_on: bool, out: &mut Out) -> Result<(),
         w.commits.push(CommitPoint {
             seq: w.next_seq,
             contents: w.visible.clone(),
-            psp: BTreeMap::new(),
+            psp: w.psp.iter().map(|(k, p)| (*k, p.snap.clone())).collect(),
             durable: true,
             req_pos: req,
             ack_pos: ack,
@@ -579,7 +596,7 @@ pub fn run(rep: &Report) {
         |case| {
             let replay = json!({"check": "C19", "seed": rep.seed, "case": case, "tier": rep.tier.name()});
             let trace_on = rep.replay_only.is_some();
-            let mut out = Out { direction: "", files: 0, crash_files: 0, tables: 0, entries: 0, max_depth: 0, shortened_files: 0, savepoints: 0, trace: None };
+            let mut out = Out { direction: "", files: 0, crash_files: 0, tables: 0, entries: 0, max_depth: 0, shortened_files: 0, savepoints: 0, counts_extra: 0, trace: None };
             let res = match case % 10 {
                 9 => {
                     out.direction = "composite stratum";
@@ -608,6 +625,7 @@ pub fn run(rep: &Report) {
             rep.count("tables_compared", out.tables);
             rep.count("entries_compared", out.entries);
             rep.count("persistent_savepoints_compared", out.savepoints);
+            rep.count("files_with_a_savepoint_of_the_empty_database", out.counts_extra);
             rep.count_max("max.user_tree_depth", out.max_depth);
             let _ = out.shortened_files;
             if out.max_depth >= 3 || out.savepoints > 0 {
